@@ -191,12 +191,71 @@ def _finish_returns(t, top):
 
     def clo(n):
         if n[0] == "closure":
-            nb = conv(n[3])
+            nb = _then_merge(conv(n[3]))
             if nb is not n[3]:
                 return ("closure", n[1], n[2], nb)
         return None
     t = rewrite(t, clo)
-    return _push_ctor(conv(t)) if top else t
+    return _then_merge(_push_ctor(conv(t))) if top else t
+
+
+_NONE = ("def", "v1::None")
+
+
+def _conj(c):
+    if c[0] == "op" and c[1] == "&&" and len(c[2]) == 2:
+        return _conj(c[2][0]) + _conj(c[2][1])
+    return [c]
+
+
+def _then_norm(c, v):
+    """`c.then(|| v)` as the result of a function: one conjunction (right-nested); `let Some(_) = X` followed by uses of its payload
+    is `X?` at those uses"""
+    parts = _conj(c)
+    i = 0
+    while i < len(parts):
+        x = parts[i]
+        if x[0] == "iflet" and re.fullmatch(r"(v1|Option)::Some\(\$\)", x[1]):
+            payload = ("proj", x[2], x[1].split("(")[0], "0")
+            rest = parts[i + 1:] + [v]
+            if any(n == payload for r in rest for n in subterms(r, closures=False)):
+                tr = ("try", x[2])
+                sub = (lambda n: tr if n == payload else None)
+                parts = parts[:i] + [rewrite(r, sub) for r in parts[i + 1:]]
+                v = rewrite(v, sub)
+                continue
+        i += 1
+    if not parts:
+        return ("call", "Some", [v])
+    c = parts[-1]
+    for x in reversed(parts[:-1]):
+        c = ("op", "&&", [x, c])
+    return ("call", "then", [c, v])
+
+
+def _then_merge(t):
+    """the result of an Option-valued function: nested `if c { None } else { .. }` / `c.then(|| v)` / `x.filter(p)?` chains are one
+    `conditions.then(|| value)`"""
+    def is_then(x):
+        return x[0] == "call" and x[1] == "then" and len(x[2]) == 2
+    if t[0] == "if":
+        a, b = _then_merge(t[2]), _then_merge(t[3])
+        if a == _NONE and is_then(b):
+            return _then_norm(("op", "&&", [_not(t[1]), b[2][0]]), b[2][1])
+        if b == _NONE and is_then(a):
+            return _then_norm(("op", "&&", [t[1], a[2][0]]), a[2][1])
+        if a is not t[2] or b is not t[3]:
+            return _mk_if(t[1], a, b)
+        return t
+    if is_then(t):
+        c, v = t[2]
+        v = _float(v)
+        while v[0] == "early" and v[1] and all(val == ("ret", _NONE) and g != ("lit", "match") for g, val in v[1]):
+            for g, _val in v[1]:
+                c = ("op", "&&", [c, _not(g)])
+            v = v[2]
+        return _then_norm(c, v)
+    return t
 
 
 def _canon_match_free(scr, arms):
@@ -364,6 +423,9 @@ def _float(t, top=False):
                 r = inner[2][0]                 # Ok(x)? is x
                 if not effs:
                     return r
+            elif k == "try" and inner[0] == "call" and inner[1] == "then" and len(inner[2]) == 2:
+                effs.append(("earlymark", [(_not(inner[2][0]), ("ret", _NONE))]))       # c.then(|| v)?  ==  if !c { return None }  v
+                r = inner[2][1]
             else:
                 r = (k, inner)
         elif k == "field":
@@ -1566,6 +1628,14 @@ class Norm:
                 if not handled and inner.get("k") in ("Call", "MethodCall", "Match", "If", "Loop", "Block") and inner.get("ty") != "!" \
                         and not self._is_mut_local_effect(inner):
                     et = self._t(inner)
+                    if et[0] == "early" and et[1] and all(_diverges(v) for _c, v in et[1]) and not any(c == ("lit", "match") for c, _v in et[1]):
+                        # a statement that is a guard clause followed by an unused value:  `opt.filter(p)?;`
+                        early.extend(et[1])
+                        base = et[2]
+                        while base[0] in ("field", "proj"):
+                            base = base[1]
+                        seen = any(x == base for c, _v in et[1] for x in subterms(c))       # already evaluated by the guard itself
+                        et = et[2] if not seen and any(x[0] in ("call", "try", "seq", "for", "mut") for x in subterms(et[2])) else ("lit", "()")
                     if not _is_unit(et) and not _diverges(et):
                         effs.append(et)
             elif sk == "SLet" and "init" in st and "els" not in st and _may_diverge(st["init"]):
@@ -1769,6 +1839,11 @@ class Norm:
                 return ("call", "Entry::or_default", [recv])
             if name == "Entry::or_insert" and len(args) == 1 and args[0] == ("call", "Default::default", []):
                 return ("call", "Entry::or_default", [recv])
+            if name == "Option::filter" and len(args) == 1 and args[0][0] == "closure" and args[0][2] == 1:
+                # o.filter(p)  ==  (o is Some && p(payload)).then(|| payload)
+                cond, payload = _opt_body(recv)
+                if cond is not None:
+                    return ("call", "then", [("op", "&&", [cond, _apply(args[0], payload)]), payload])
             if name == "Option::or_else" and len(args) == 1 and args[0][0] == "closure" and args[0][2] == 0:
                 # o.or_else(|| y)  ==  if o is Some { Some(payload of o) } else { y }
                 cond, payload = _opt_body(recv)
@@ -1882,6 +1957,9 @@ class Norm:
                 sc = self._t(e["scrut"])
                 if sc[0] == "try" and sc[1][0] == "call" and sc[1][1] in ("Ok", "Some") and len(sc[1][2]) == 1:
                     return sc[1][2][0]           # Ok(x)? is x (an inlined helper that cannot fail on this path)
+                inner = sc[1] if sc[0] == "try" else sc
+                if inner[0] == "call" and inner[1] == "then" and len(inner[2]) == 2:
+                    return ("early", [(_not(inner[2][0]), ("ret", _NONE))], inner[2][1])      # c.then(|| v)?  ==  if !c { return None }  v
                 return sc if sc[0] == "try" else ("try", sc)
             fl = as_for_loop(e)
             if fl is not None:
